@@ -237,11 +237,17 @@ class Builder:
         self.memo: dict = {}
         self.nodes: list = []  # (prog, relation) in construction order
         self.leaf_rows: dict = {}  # leaf name -> list of dict tag -> value
+        self.leaf_rows_by_id: dict = {}  # id(LeafRelation) -> (LeafRelation, rows)
         self.leaf_payloads: dict = {}
         self.access_log: list = []
         self.expr_cache: dict = {}  # AST repr -> library expression object (equal ASTs share one object)
 
     def rows_of_leaf(self, leaf):
+        # by object first: two leaves may carry the same library name (and compare equal) while
+        # holding different rows
+        hit = self.leaf_rows_by_id.get(id(leaf))
+        if hit is not None and hit[0] is leaf:
+            return hit[1]
         return self.leaf_rows[leaf.name]
 
     def make_leaf(self, name):
@@ -308,6 +314,12 @@ class Builder:
             raise
         except Exception as exc:  # noqa: BLE001
             raise BuildFailure(prog, exc) from exc
+        if op == "leaf":
+            node = rel
+            while not isinstance(node, R.LeafRelation) and getattr(node, "target", None) is not None:
+                node = node.target
+            if isinstance(node, R.LeafRelation):
+                self.leaf_rows_by_id[id(node)] = (node, self.leaf_rows[prog[1]])
         self.memo[key] = rel
         self.nodes.append((prog, rel))
         return rel
